@@ -119,8 +119,8 @@ func init() {
 		NotCovered: "narrowing soundness, subtyping, generic instantiation, and whether each native method returns a value of its declared return type (planned ARGREP results, not built; the Regex#* example named in the property is therefore not decided).",
 	}
 	props["C18"] = &PropSpec{
-		Rules:      []string{"switch/matrix", "native/argrep"},
-		Decides:    "two coverage conditions of the comparison code: every implementation of lax equality for a numeric kind has an arm for every numeric representation any of its siblings handles (so `a =~ b` cannot hold in one direction only because an arm is missing), and the four ordering operators of each kind accept identical operand sets; and the native == of every class reads its `any` operand only through checked accessors, so == is total.",
+		Rules:      []string{"switch/matrix", "cmp/mixed-basis", "native/argrep"},
+		Decides:    "that all comparison functions between an Int and a Float convert in the same direction (a function comparing on another basis disagrees with its siblings above 2**53); two coverage conditions of the comparison code: every implementation of lax equality for a numeric kind has an arm for every numeric representation any of its siblings handles (so `a =~ b` cannot hold in one direction only because an arm is missing), and the four ordering operators of each kind accept identical operand sets; and the native == of every class reads its `any` operand only through checked accessors, so == is total.",
 		NotCovered: "that equal values hash equally, transitivity, and numeric agreement across Int/Float precision boundaries: they depend on the values compared. Reflexivity and symmetry of == for collections.",
 	}
 	props["C20"] = &PropSpec{
